@@ -33,6 +33,9 @@ struct Under {
     fcalls: usize,
     pending: Vec<u8>,
     attempts: Arc<AtomicUsize>,
+    bulk: bool,
+    bulk_lines: Arc<AtomicUsize>,
+    bulk_partial: Arc<AtomicUsize>,
 }
 fn parse_line(b: &[u8]) -> Option<(u64, u64)> {
     let s = std::str::from_utf8(b).ok()?;
@@ -48,6 +51,25 @@ impl Write for Under {
             while !*o {
                 o = self.gate.cv.wait(o).unwrap();
             }
+        }
+        if self.bulk {
+            // no per-line events: count complete lines and torn ones
+            for &b in buf {
+                if self.pending.is_empty() && b != b'p' {
+                    self.bulk_partial.fetch_add(1, Ordering::SeqCst);
+                }
+                self.pending.push(b);
+                if b == b'\n' {
+                    if parse_line(&self.pending).is_some() {
+                        self.bulk_lines.fetch_add(1, Ordering::SeqCst);
+                    } else {
+                        self.bulk_partial.fetch_add(1, Ordering::SeqCst);
+                    }
+                    self.attempts.fetch_add(1, Ordering::SeqCst);
+                    self.pending.clear();
+                }
+            }
+            return Ok(buf.len());
         }
         // a call that begins a new line counts as one attempt on that line
         let begins = self.pending.is_empty();
@@ -82,6 +104,9 @@ impl Write for Under {
         Ok(n)
     }
     fn flush(&mut self) -> io::Result<()> {
+        if self.bulk {
+            return Ok(());
+        }
         self.fcalls += 1;
         if !self.pending.is_empty() {
             self.log.push(json!({"ev": "w.partial", "bytes": String::from_utf8_lossy(&self.pending)}));
@@ -106,6 +131,9 @@ fn child() {
     let log = Log(Arc::new(Mutex::new(vec![])));
     let gate = Arc::new(Gate { open: Mutex::new(true), cv: Condvar::new() });
     let attempts = Arc::new(AtomicUsize::new(0));
+    let bulk = sc["bulk"].as_bool().unwrap_or(false);
+    let bulk_lines = Arc::new(AtomicUsize::new(0));
+    let bulk_partial = Arc::new(AtomicUsize::new(0));
     let idx = |k: &str| -> Vec<usize> { sc[k].as_array().map(|a| a.iter().map(|x| x.as_u64().unwrap() as usize).collect()).unwrap_or_default() };
     let under = Under {
         log: log.clone(),
@@ -117,6 +145,9 @@ fn child() {
         fcalls: 0,
         pending: vec![],
         attempts: attempts.clone(),
+        bulk,
+        bulk_lines: bulk_lines.clone(),
+        bulk_partial: bulk_partial.clone(),
     };
     let lossy = sc["lossy"].as_bool().unwrap();
     let (nb, guard) = NonBlockingBuilder::default().buffered_lines_limit(sc["k"].as_u64().unwrap() as usize).lossy(lossy).finish(under);
@@ -138,6 +169,11 @@ fn child() {
                 for _ in 0..n {
                     i += 1;
                     let line = format!("p{}-l{}-{}\n", p, i, "x".repeat((i % 5) as usize * 3));
+                    if bulk {
+                        let _ = w.write(line.as_bytes());
+                        done.fetch_add(1, Ordering::SeqCst);
+                        continue;
+                    }
                     log.push(json!({"ev": "write.start", "p": p, "i": i}));
                     let r = w.write(line.as_bytes());
                     log.push(json!({"ev": "write.end", "p": p, "i": i, "ok": matches!(r, Ok(n) if n == line.len())}));
@@ -171,6 +207,12 @@ fn child() {
                 let (a, d) = (asked.clone(), done.clone());
                 let ok = wait_until(&|| d.load(Ordering::SeqCst) >= a.load(Ordering::SeqCst), 3000);
                 if !ok {
+                    log.push(json!({"ev": "stall", "what": "producers"}));
+                }
+            }
+            "wait_producers_long" => {
+                let (a, d) = (asked.clone(), done.clone());
+                if !wait_until(&|| d.load(Ordering::SeqCst) >= a.load(Ordering::SeqCst), 60000) {
                     log.push(json!({"ev": "stall", "what": "producers"}));
                 }
             }
@@ -220,7 +262,14 @@ fn child() {
         log.push(json!({"ev": "guard.drop.end", "ms": 0}));
     }
     stop.store(true, Ordering::SeqCst);
-    log.push(json!({"ev": "final", "dropped": counter.dropped_lines()}));
+    if bulk {
+        let offered = asked.load(Ordering::SeqCst);
+        log.0.lock().unwrap().retain(|v| v["ev"] != "guard.drop.start" && v["ev"] != "guard.drop.end" && v["ev"] != "w.drop");
+        log.push(json!({"ev": "bulk.final", "offered": offered, "written": bulk_lines.load(Ordering::SeqCst), "partial": bulk_partial.load(Ordering::SeqCst),
+            "dropped": counter.dropped_lines()}));
+    } else {
+        log.push(json!({"ev": "final", "dropped": counter.dropped_lines()}));
+    }
     for v in log.0.lock().unwrap().iter() {
         runner::child_emit(v.clone());
     }
